@@ -8,7 +8,9 @@
   A struct is a CHOICE iff its first Go field is `Present` (one alternative per remaining field) else a SEQUENCE.
 
   `none` = the value does not satisfy its constraints, or needs something outside the stated scope of C03
-  (fragmented lengths ≥ 16384, extension additions, OBJECT IDENTIFIER, semi-constrained INTEGER).
+  (extension additions, OBJECT IDENTIFIER, semi-constrained INTEGER, a SEQUENCE OF count of 16384 or more that is
+  not a constrained whole number).
+  Strings and open types of 16384 items or more are fragmented as 11.9.3.8 prescribes (`lengthAndItems`).
 -/
 import Stgutg.Base.Bits
 import Stgutg.Model.AperTypes
@@ -42,8 +44,9 @@ def constrainedWholeNumber (pos : Nat) (n r : Nat) : Option Bits :=
     let lenBits := natToBits (bitsFor maxk) (k - 1)
     some (lenBits ++ pad (pos + lenBits.length) ++ natToBits (8 * k) n)
 
-/-- 11.9 length determinant for a length `n` with constraint `lb..ub` (ub = none: unbounded or ≥ 64K).
-    Fragmentation (n ≥ 16384, 11.9.3.8) is outside the scope here. -/
+/-- 11.9 length determinant for a length `n` with constraint `lb..ub` (ub = none: unbounded or ≥ 64K), as a single
+    field: the constrained form 11.9.3.3/11.9.4.1, or the one- and two-octet general forms 11.9.3.6/11.9.3.7.
+    A general length of 16384 or more is not a single field (11.9.3.8): see `lengthAndItems`. -/
 def lengthDeterminant (pos : Nat) (n lb : Nat) (ub : Option Nat) : Option Bits :=
   match ub with
   | some u =>
@@ -56,6 +59,28 @@ def lengthDeterminant (pos : Nat) (n lb : Nat) (ub : Option Nat) : Option Bits :
     if n < 128 then some (pad pos ++ natToBits 8 n)                         -- 11.9.3.6
     else if n < 16384 then some (pad pos ++ [true, false] ++ natToBits 14 n) -- 11.9.3.7
     else none
+
+/-- 11.9.3.5 – 11.9.3.8: a general (unconstrained) length `n` followed by the `n` items of `unit` bits each
+    (`items` holds exactly those n·unit bits), ALIGNED variant.
+    * n < 16K (11.9.3.6 / 11.9.3.7): the length in one or two octets, octet-aligned; then, unless n = 0, the items
+      octet-aligned (16.11, 17.8, 11.2).
+    * n ≥ 16K (11.9.3.8): a single octet `11` followed by m in six bits, octet-aligned, m the largest of 1..4 with
+      m·16K ≤ n; the first m·16K items; then the remaining n − m·16K items coded by the same rule, so that the last
+      fragment is always followed by a length below 16K — the length 0 when n is a multiple of 16K (11.9.3.8.3).
+    The fuel `n / 16384 + 1` suffices (every fragment takes at least 16K items). -/
+def lengthAndItems (unit : Nat) : Nat → Nat → Nat → Bits → Bits
+  | 0, _, _, _ => []
+  | fuel + 1, pos, n, items =>
+    if n < 16384 then
+      let l := pad pos ++ (if n < 128 then natToBits 8 n else [true, false] ++ natToBits 14 n)
+      if n = 0 then l else l ++ pad (pos + l.length) ++ items
+    else
+      let m := min 4 (n / 16384)
+      let l := pad pos ++ [true, true] ++ natToBits 6 m
+      let pos1 := pos + l.length
+      let frag := items.take (m * 16384 * unit)
+      l ++ pad pos1 ++ frag ++
+        lengthAndItems unit fuel (pos1 + (pad pos1).length + frag.length) (n - m * 16384) (items.drop (m * 16384 * unit))
 
 /-- two's complement in `8k` bits -/
 def twosComplement (k : Nat) (v : Int) : Bits := natToBits (8 * k) (v % (2 ^ (8 * k) : Int)).toNat
@@ -112,13 +137,16 @@ def bitString (pos : Nat) (content : Bits) (ext : Bool) (lbP ubP : Option Int) :
     if ub = some lb ∧ lb < 65536 then
       -- fixed size: 16.9 (≤ 16 bits: not aligned), 16.10 (aligned), no length determinant
       if lb ≤ 16 then some (pre ++ content) else some (pre ++ pad pos1 ++ content)
-    else
-      -- 16.11: length determinant, then the bits octet-aligned (nothing for an empty string)
+    else if (match ub with | some u => decide (u < 65536) | none => false) then
+      -- 16.11 with 11.9.3.3: constrained length determinant, then the bits octet-aligned (nothing for an empty string)
       match lengthDeterminant pos1 content.length lb ub with
       | none => none
       | some l =>
         if content.isEmpty then some (pre ++ l)
         else some (pre ++ l ++ pad (pos1 + l.length) ++ content)
+    else
+      -- 16.11 with 11.9.3.5-8: general length, fragmented from 16K bits on
+      some (pre ++ lengthAndItems 1 (content.length / 16384 + 1) pos1 content.length content)
 
 /-- 17 OCTET STRING -/
 def octetString (pos : Nat) (octets : Bytes) (ext : Bool) (lbP ubP : Option Int) : Option Bits :=
@@ -131,12 +159,15 @@ def octetString (pos : Nat) (octets : Bytes) (ext : Bool) (lbP ubP : Option Int)
       if lb = 0 then some pre                                              -- 17.5
       else if lb ≤ 2 then some (pre ++ content)                            -- 17.6: not aligned
       else some (pre ++ pad pos1 ++ content)                               -- 17.7
-    else
+    else if (match ub with | some u => decide (u < 65536) | none => false) then
       match lengthDeterminant pos1 octets.length lb ub with
       | none => none
       | some l =>
         if octets.isEmpty then some (pre ++ l)
-        else some (pre ++ l ++ pad (pos1 + l.length) ++ content)            -- 17.8
+        else some (pre ++ l ++ pad (pos1 + l.length) ++ content)            -- 17.8 with 11.9.3.3
+    else
+      -- 17.8 with 11.9.3.5-8: general length, fragmented from 16K octets on
+      some (pre ++ lengthAndItems 8 (octets.length / 16384 + 1) pos1 octets.length content)
 
 def isChoice (sd : StructDef) : Bool :=
   match sd.fields with
@@ -258,9 +289,8 @@ def encode (env : Env) : Nat → Nat → Ty → Params → Val → Option Bits
                     | none => none
                     | some inner =>
                       let octets := if inner.isEmpty then List.replicate 8 false else inner ++ pad inner.length
-                      match lengthDeterminant pos1 (octets.length / 8) 0 none with
-                      | none => none
-                      | some l => some (pre ++ l ++ pad (pos1 + l.length) ++ octets)
+                      -- general length in octets (11.9.3.5-8), fragmented from 16K octets on
+                      some (pre ++ lengthAndItems 8 (octets.length / 8 / 16384 + 1) pos1 (octets.length / 8) octets)
                 else
                   -- 23.6: index of the alternative as a constrained whole number 0..n−1 (n root alternatives)
                   match params.valueUB with
